@@ -821,6 +821,17 @@ pub fn inject(r: &mut Rng, t: &Tuple, sp: &Spelled, kind: &str) -> Option<String
                     let at = r.below(entries.len() + 1);
                     entries.insert(at, format!("nh{}:{}", r.below(1000), r.pick(&["zz", "0g", "g0", "0x", "é", "  ", "-1", "+1"])));
                 },
+                "checksum-dup-alg" if r.chance(1, 3) => {
+                    // otherwise canonical: sorted, lower-case, the duplicate right next to its twin
+                    let mut sorted = good.clone();
+                    if sorted.is_empty() {
+                        sorted.push(("a".into(), vec![0]));
+                    }
+                    sorted.sort();
+                    entries = sorted.iter().map(|(a, b)| format!("{a}:{}", hex::encode(b))).collect();
+                    let i = r.below(sorted.len());
+                    entries.insert(i + 1, format!("{}:{}", sorted[i].0, r.pick(&["11", "", "00ff"])));
+                },
                 "checksum-dup-alg" => {
                     let (a, _) = good.first().cloned().unwrap_or((String::from("a"), vec![]));
                     if good.is_empty() {
